@@ -103,6 +103,13 @@ _C11_FORMS = ('if', 'while_do', 'loop', 'block', 'case_expr')
 _GLUE_PUNCT = ('(', ')', ',', ';', '.', '::')
 
 _C11_FIXED = [
+    # keywords that stand for a value, with and without an alias, in lists and conditions (every place where a pass could
+    # look at the raw spelling)
+    ('select', 'NULL', 'AS', 'n', ',', 'a', 'from', 't', 'where', 'a', 'IS', 'NOT NULL'),
+    ('select', 'TRUE', 'AS', 'flag', ',', 'FALSE', 'AS', 'f2', ',', 'CURRENT_DATE', 'AS', 'today', 'from', 't'),
+    ('select', 'a', 'from', 't', 'where', 'b', 'IS', 'NULL', 'OR', 'c', '=', 'TRUE', 'ORDER BY', 'a', 'DESC', 'NULLS LAST'),
+    ('select', 'CASE', 'WHEN', 'a', 'IS', 'NULL', 'THEN', 'NULL', 'ELSE', 'CURRENT_TIMESTAMP', 'END', 'AS', 'x', 'from', 't'),
+    ('select', 'a', 'from', 't', 'LEFT OUTER JOIN', 'u', 'ON', 't', '.', 'x', '=', 'u', '.', 'y', 'CROSS JOIN', 'v'),
     ('select', '1', 'GO', 'select', '2'),
     ('select', '1', ';', 'GO', 'select', '2'),
     ('create', 'table', 't', '(', 'x', 'int', ')', 'AS', 'select', 'f', '(', '1', ')'),
